@@ -15,7 +15,8 @@ EXPLANATION = (
     "16-bit event id is covered by a registration-time bound, so an accepted id is delivered exactly and cannot alias a "
     "queue or the exit id; (E3) the id computed for a ring reaches both the epoll add and delete unchanged, only the first "
     "thread whose mask contains the queue is used, and the dispatcher hands (event id, event set, the thread's ring slice, "
-    "thread id) to the backend.")
+    "thread id) to the backend."
+    " Also (E3): the mask used for a worker's ring slice is the worker's own element of queues_per_thread unmodified, shifted by the ring's index, and one worker object is created for every mask.")
 NOT_DECIDED = ("The rank formula popcount(mask) - popcount(mask >> index) and the per-thread slice construction as numeric "
                "results (no canonical form; an expression-shape match would fire on equivalent rewrites, so it is not armed).")
 
